@@ -574,6 +574,30 @@ func evalModItem(vc *VC, env *Env, m Clause) []modItem {
 		}
 	}
 	if ce, ok := e.(*ast.CallExpr); ok {
+		if id, ok := ce.Fun.(*ast.Ident); ok && id.Name == "boxed" && len(ce.Args) == 1 {
+			// boxed(v): the object behind the pointer boxed in interface argument v (type known statically at the call site)
+			pid, ok := ce.Args[0].(*ast.Ident)
+			if !ok {
+				fail("boxed() needs a parameter name")
+			}
+			v, err := env.Expr(ce.Args[0])
+			if err != nil {
+				fail(err.Error())
+			}
+			ty, known := env.boxed[pid.Name]
+			if !known {
+				fail("the pointer boxed in " + pid.Name + " is not statically known at this call site")
+			}
+			ref := "(i-ref " + v.T + ")"
+			if st, ok := ty.Underlying().(*types.Struct); ok {
+				var out []modItem
+				for i := 0; i < st.NumFields(); i++ {
+					out = append(out, modItem{comp: vc.compField(ty, i), ref: ref, src: m.Src})
+				}
+				return out
+			}
+			return []modItem{{comp: vc.compCell(ty), ref: ref, src: m.Src}}
+		}
 		if id, ok := ce.Fun.(*ast.Ident); ok && id.Name == "cellof" && len(ce.Args) == 2 {
 			// cellof(v, T): the cell of type T behind the pointer boxed in interface value v
 			v, err := env.Expr(ce.Args[0])
